@@ -49,9 +49,11 @@ def sample(rng):
     ts = [round(tm + rng.uniform(0.0, 1.5), 4) for tm in tmin]
     td5 = [ts[0], ts[1], t3, ts[2], ts[3]]
     pk = [[round(rng.uniform(-1.5, 1.5) * d[0], 4), round(rng.uniform(-1.2, 1.2) * d[0], 4)] for _ in range(5)]
+    pk.append([round(rng.choice([-1, 1]) * rng.uniform(0.75, 0.95) * R_, 4), round(rng.choice([-1, 1]) * rng.uniform(0.75, 0.95) * R_, 4)])   # inside the bounding square of the inner explosive, outside the disc
     cases.append(dict(module=K + 'kenamond2', cls='Kenamond2', params={'geometry': 2, 'R': R_, 'D1': D1, 'D2': D2, 'dets': d, 't_d': td5}, pts=pk,
                       coq=lambda p, a=(R_, D1, D2, d[0], d[1], d[2], d[3], td5[0], td5[1], td5[2], td5[3], td5[4]): 'k2_bt2 %s %s %s' % (' '.join(qlit(v) for v in a), qlit(p[0]), qlit(p[1]))))
     pk3 = [[round(rng.uniform(-1.2, 1.2) * d[0], 4) for _ in range(3)] for _ in range(3)]
+    pk3.append([round(rng.choice([-1, 1]) * rng.uniform(0.7, 0.95) * R_, 4) for _ in range(3)])   # inside the bounding cube, outside the sphere
     cases.append(dict(module=K + 'kenamond2', cls='Kenamond2', params={'geometry': 3, 'R': R_, 'D1': D1, 'D2': D2, 'dets': d, 't_d': td5}, pts=pk3,
                       coq=lambda p, a=(R_, D1, D2, d[0], d[1], d[2], d[3], td5[0], td5[1], td5[2], td5[3], td5[4]): 'k2_bt3 %s %s %s %s' % (' '.join(qlit(v) for v in a), qlit(p[0]), qlit(p[1]), qlit(p[2]))))
     # Kenamond 3 (inert obstacle): 2-D and 3-D, detonator anywhere outside the obstacle, points in line of sight and in the shadow
@@ -273,4 +275,63 @@ def oracle(rng, tier, reasons):
         if r['min_bt'] < tmin - 1e-9:
             fails.append({'solver': c['cls'], 'params': c['params'], 'min_burn_time': r['min_bt'], 'earliest_detonation': tmin,
                           'why': 'burn time earlier than the earliest detonation'})
+    return fails
+
+
+SYM = r"""
+import importlib
+def bt(s, pts):
+    return np.asarray(s(np.array(pts, dtype=float), 0.0)['burntime'], dtype=float)
+def main(payload):
+    out = []
+    for c in payload:
+        try:
+            cls = getattr(importlib.import_module(c['module']), c['class'])
+            a = bt(cls(**c['params']), c['pts']); b = bt(cls(**c['params2']), c['pts2'])
+            out.append({'max_diff': float(np.max(np.abs(a - b))), 'a': [float(v) for v in a[:3]], 'b': [float(v) for v in b[:3]]})
+        except Exception as ex:
+            out.append({'error': type(ex).__name__ + ': ' + str(ex)[:200]})
+    return out
+"""
+
+
+def sym_oracle(rng, tier, reasons):
+    """rigid symmetries on the real code: rotation about the detonator axis / the origin, reflections"""
+    n = 2 if tier == 'quick' else 15
+    payload = []
+    def rot2(p, a):
+        return [p[0] * math.cos(a) - p[1] * math.sin(a), p[0] * math.sin(a) + p[1] * math.cos(a)]
+    for _ in range(n):
+        for c in sample(rng):
+            P = c['params']; a = rng.uniform(0.2, 2.9)
+            if c['cls'] == 'Kenamond2':
+                R_ = P['R']
+                if P['geometry'] == 3:
+                    pts = c['pts'] + [[rng.uniform(-1, 1) * R_ * 1.2 for _ in range(3)] for _ in range(12)]
+                    pts2 = [rot2(p[:2], a) + [p[2]] for p in pts]                       # rotation about the detonator (z) axis
+                    what = 'rotation about the detonator axis'
+                else:
+                    pts = c['pts'] + [[rng.uniform(-1, 1) * R_ * 1.2 for _ in range(2)] for _ in range(12)]
+                    pts2 = [[-p[0], p[1]] for p in pts]; what = 'reflection x -> -x'
+                payload.append({'module': c['module'], 'class': c['cls'], 'params': P, 'params2': P, 'pts': pts, 'pts2': pts2, 'what': what})
+            elif c['cls'] in ('Kenamond1', 'Kenamond3'):
+                g = P['geometry']
+                rot = (lambda p: rot2(p[:2], a) + list(p[2:]))
+                P2 = dict(P, x_d=rot(P['x_d']))
+                if c['cls'] == 'Kenamond1':
+                    sh = [rng.uniform(-2, 2) for _ in range(g)]
+                    P2 = dict(P, x_d=[u + v for u, v in zip(rot(P['x_d']), sh)])
+                    pts2 = [[u + v for u, v in zip(rot(p), sh)] for p in c['pts']]; what = 'rigid motion of detonator and points'
+                else:
+                    pts2 = [rot(p) for p in c['pts']]; what = 'rotation of detonator and points about the obstacle centre'
+                payload.append({'module': c['module'], 'class': c['cls'], 'params': P, 'params2': P2, 'pts': c['pts'], 'pts2': pts2, 'what': what})
+            else:
+                payload.append({'module': c['module'], 'class': c['cls'], 'params': P, 'params2': P, 'pts': c['pts'], 'pts2': [rot2(p, a) for p in c['pts']], 'what': 'rotation about the axis'})
+    res = H.run_real(SYM, payload)
+    fails = []
+    for p, r in zip(payload, res):
+        if 'error' in r:
+            continue
+        if r['max_diff'] > 1e-9:
+            fails.append({'solver': p['class'], 'params': p['params'], 'symmetry': p['what'], 'points': p['pts'][:4], 'image_points': p['pts2'][:4], 'observed': r})
     return fails
